@@ -358,6 +358,68 @@ let judge _id (c : cursor) (r : cursor) : bool * string =
     List.iter2 (fun row m -> c_vec true "policy_matrix" (site ^ "::getPolicy") row m) t rows;
     List.iteri (fun i (u, act) -> c_nat "sample_prob" (site ^ "::sampleAction") act (sample_prob (List.nth rows i) u)) samp;
     (s > 1, "mpol")
+  | "pga" ->
+    let s = next_int c in let a = next_int c in
+    let rows = List.init s (fun _ -> List.init a (fun _ -> next_q c)) in
+    let lr = next_q c in let pl = next_q c in
+    let nops = next_int c in
+    let ops = List.init nops (fun _ -> next_int c) in
+    let _seed = next_int c in
+    let site = "PGAAPPPolicy" in
+    let rd_tables () = let t = chunks a (next_qs_checked "pgaapp_rows_dist" (site ^ "::stepUpdateP") r) in
+      let pr = chunks a (next_qs_checked "pgaapp_rows_dist" (site ^ "::getActionProbability") r) in (t, pr) in
+    let t0 = rd_tables () in
+    let steps = List.map (fun st -> let tb = rd_tables () in (st, tb)) ops in
+    let samp = List.init s (fun _ -> let u = next_q r in let act = next_nat r in (u, act)) in
+    (* O: what isProbability checks (entries >= 0, sum within 1e-6 of one), table = queries *)
+    let tol6 = q_of_ints 1001 1000000000 in
+    let o_tables (t, pr) =
+      if List.length t <> s then oracle_fail "pgaapp_rows_dist" (site ^ "::getPolicy") "wrong number of rows";
+      List.iter2 (fun row prow ->
+          if List.length row <> a || not (is_dist_tolb tol6 row) then
+            oracle_fail "pgaapp_rows_dist" (site ^ "::stepUpdateP") ("row is not a probability vector: " ^ str_qs row);
+          o_agree "pgaapp_table_eq_query" site row prow) t pr in
+    o_tables t0;
+    List.iter (fun (_, tb) -> o_tables tb) steps;
+    let (tfinal, _) = (match List.rev steps with [] -> t0 | (_, tb) :: _ -> tb) in
+    List.iteri (fun i (_, act) -> o_support "sample_prob_in_support" (site ^ "::sampleAction") (List.nth tfinal i) act) samp;
+    (* C: one-step simulation — the model's update applied to the implementation's previous row *)
+    let e6 = q_of_ints 1 1000000 and e8 = q_of_ints 1 100000000 and e12 = q_of_ints 1 1000000000000 in
+    let near x y = q_lt (q_abs (q_sub x y)) e8 in
+    let ill = ref 0 and boundary = ref 0 in
+    let prev = ref (fst t0) in
+    List.iter (fun (sidx, (t, _)) ->
+        let q = List.nth rows sidx in
+        let p = List.nth !prev sidx in
+        let g = pga_grad_row lr pl q p in
+        let ps = possum g in
+        let bad = near (q_abs (q_sub ps q_one)) e6 || near ps e6
+                  || List.exists (fun pa -> near (q_abs (q_sub pa q_one)) e6) p
+                  || List.exists (fun x -> q_lt (q_abs x) e12 && not (q_eq x q_zero)) g in
+        if List.exists (fun x -> q_lt x q_zero) g then incr boundary;
+        if bad then incr ill
+        else c_vec false "pga_step" (site ^ "::stepUpdateP") (List.nth t sidx) (List.map vio_qred (project g));   (* = pga_step_row lr pl q p *)
+        List.iteri (fun i row -> if i <> sidx then c_vec true "pga_other_rows" (site ^ "::stepUpdateP") (List.nth t i) row) !prev;
+        prev := t) steps;
+    List.iteri (fun i (u, act) -> c_nat "sample_prob" (site ^ "::sampleAction") act (sample_prob (List.nth tfinal i) u)) samp;
+    (nops > 0, if !boundary > 0 then "pga-boundary" else "pga")
+  | "esrl" | "sr" | "rnd" ->
+    let a = next_int c in
+    let site = (match kind with "esrl" -> "ESRLPolicy" | "sr" -> "SuccessiveRejectsPolicy" | _ -> "RandomPolicy") in
+    let clause x = kind ^ "_" ^ x in
+    let n = ref 0 and phases = ref [] in
+    while not (at_end r) do
+      let pol = next_qs_checked (clause "rows_dist") (site ^ "::getPolicy") r in
+      let probs = next_qs_checked (clause "rows_dist") (site ^ "::getActionProbability") r in
+      let act = next_nat r in
+      if !n > 0 && kind <> "rnd" then phases := next r :: !phases;
+      o_dist (clause "rows_dist") (site ^ "::getPolicy") false pol a;
+      o_agree (clause "table_eq_query") site pol probs;
+      o_support (clause "sample_in_support") (site ^ "::sampleAction") pol act;
+      if kind = "rnd" then c_vec false "random_policy" (site ^ "::getPolicy") pol (List.init a (fun _ -> vio_qdiv q_one (q_of_int a)));
+      incr n
+    done;
+    (List.length (List.sort_uniq compare !phases) > 1 || kind = "rnd", kind)
   | k -> failwith ("unknown case kind " ^ k)
 
 let () = main_loop judge
